@@ -72,7 +72,10 @@ def run(rep, work, tier, seed, props, replay=None):
             c["guard"] = False          # memory guarding off: values and gradients must not depend on it
         cases.append(c)
     results = gh.run_impl_cases(cases)
-    raised = [i for i, r in enumerate(results) if any(o is not None for o in r["outcomes"])]
+    def unexpected(i, r):
+        st = builders[i].stmts
+        return any((o is not None) != (st[j].get("expect") == "raise") for j, o in enumerate(r["outcomes"]))
+    raised = [i for i, r in enumerate(results) if unexpected(i, r)]
     ok_idx = [i for i, r in enumerate(results) if progs.exact_safe(r) and i not in set(raised)]
     discarded = len(builders) - len(ok_idx) - len(raised)
     owner = lambda nm, o: not o["has_base"]
@@ -82,8 +85,10 @@ def run(rep, work, tier, seed, props, replay=None):
         for idx, lst in gh.coq_eval_indices(terms, "fcase", "ffailing", work, "c05f", shard=50):
             bad.extend(ok_idx[idx[j]] for j in lst)
     for i in sorted(raised, key=lambda i: len(builders[i].stmts))[:4]:
-        j = [k for k, o in enumerate(results[i]["outcomes"]) if o is not None][0]
-        rep.violation({"kind": "statement %d (%s) of an in-place program raised %s" % (j, builders[i].stmts[j]["op"], results[i]["outcomes"][j]), "stmts": builders[i].stmts})
+        j = [k for k, o in enumerate(results[i]["outcomes"]) if (o is not None) != (builders[i].stmts[k].get("expect") == "raise")][0]
+        rep.violation({"kind": "statement %d (%s) of an in-place program: outcome %s, expected %s" % (j, builders[i].stmts[j]["op"], results[i]["outcomes"][j],
+                                                                                                 "an exception (NumPy refuses it)" if builders[i].stmts[j].get("expect") == "raise" else "success"),
+                       "stmts": builders[i].stmts})
     for i in sorted(bad, key=lambda i: len(builders[i].stmts))[:6]:
         rep.violation({"kind": "values or gradients differ from the equivalent purely functional program (Model/GraphP.v on the functional meaning of the updates; its gradients are the total derivative, Props/C01.v)",
                        "stmts": builders[i].stmts, "impl_final": results[i]["observations"][-1]["obs"]})
